@@ -73,6 +73,7 @@ var menus = map[string]string{
 	"M6":   "PC XT",
 	"M7":   "PC OUT",
 	"MALL": "PC PP0 VC NV NVF NVW NVH XT OUT",
+	"M5":   "PC PPV", // only used to (re)generate the witness of the recorded stand-alone-PREPREPARE finding
 }
 
 func plan(prop, tier string) []run {
@@ -115,6 +116,8 @@ func main() {
 	replay := flag.String("replay", "", "replay file")
 	only := flag.String("only", "", "run only cfg/menu (debug)")
 	verbose := flag.Bool("v", false, "verbose")
+	workers := flag.Int("workers", 16, "parallel expansion workers")
+	budgetMul := flag.Float64("budget", 1, "multiply every run's wall-clock budget")
 	cpuprof := flag.String("cpuprofile", "", "write cpu profile")
 	flag.Parse()
 	if *cpuprof != "" {
@@ -148,20 +151,34 @@ func main() {
 	violations := 0
 	outcomes := map[string]bool{}
 	var printed []string
-	for _, rn := range plan(*prop, *tier) {
-		if *only != "" && *only != rn.cfg+"/"+rn.menu {
-			continue
+	pl := plan(*prop, *tier)
+	if *only != "" {
+		f := strings.Split(*only, "/")
+		pl = []run{{cfg: f[0], menu: f[1], prims: menus[f[1]], budget: 60 * time.Second, maxV: 2}}
+		if len(f) > 2 {
+			fmt.Sscanf(f[2], "%d", &pl[0].d)
 		}
+	}
+	for _, rn := range pl {
 		cfg := config(rn.cfg)
 		cfg.Prims = prims(rn.prims)
 		cfg.D = rn.d
 		cfg.Eager = rn.eager
-		cfg.Deadline = time.Now().Add(rn.budget)
+		cfg.Deadline = time.Now().Add(time.Duration(float64(rn.budget) * *budgetMul))
 		cfg.Report = map[string]bool{*prop: true}
+		maxFound := 1
+		if *prop == "ALL" {
+			cfg.Report = nil
+			maxFound = 1000
+		}
 		cfg.Skip = skip
 		e := pmc.NewEngine(cfg)
+		e.Workers = *workers
+		if *tier == "quick" {
+			e.ValidateEvery = 3
+		}
 		t0 := time.Now()
-		e.Run(1)
+		e.Run(maxFound)
 		states += e.States
 		trans += e.Transitions
 		validated += e.Validated
@@ -281,10 +298,18 @@ func doReplayFP(path, fp string) bool {
 	cfg := config(rf.Config)
 	cfg.Prims = map[string]bool{}
 	v1, _ := pmc.Replay(cfg, rf)
+	viaPPV := false
+	for _, ev := range rf.Events {
+		if ev.Prim == "PPV" {
+			viaPPV = true
+		}
+	}
 	for _, v := range v1 {
 		f := v.FP()
 		if strings.Contains(v.Detail, "trigger=standalone-PP") {
 			f += ":standalone-PP"
+		} else if viaPPV {
+			f += ":via-standalone-PP"
 		}
 		if f == fp {
 			return true
